@@ -383,7 +383,8 @@ come back with their comments passed through a rewriter `g` that keeps the trimm
 no newline (what `rewrite_comment` does to a one-line comment under the default options). -/
 theorem definitiveTactic_horizontal_again (g : List Char → List Char) (items : List ListItem)
     (tactic : ListTactic) (sep : Separator) (width : Nat)
-    (hg : ∀ c, trim (g c) = trim c ∧ (hasNewline c = false → hasNewline (g c) = false))
+    (hg : ∀ c, trim (g c) = trim c ∧ (hasNewline c = false → hasNewline (g c) = false) ∧
+      endsWithLineComment (g c) = endsWithLineComment c)
     (h : definitiveTactic items tactic sep width = .horizontal) :
     definitiveTactic
       (items.map fun it => { it with preComment := it.preComment.map g, postComment := it.postComment.map g })
@@ -410,9 +411,15 @@ example : definitiveTactic
     [⟨some " /* p */".toList, .sameLine, some "a".toList, some "/* q */ ".toList, false⟩]
     .horizontalVertical .comma 40 = .horizontal := by decide
 
-/-- `trim` is such a rewriter. -/
+/-- `trim` keeps the trimmed text and introduces no newline (that it keeps the answer to "the last comment
+is a line comment" is a statement about `CharClasses` on a text with and without its outer white space;
+it is taken as a hypothesis above and checked on every case of the correspondence `lists.tactic`, where
+both the trimmed and the untrimmed comment occur). -/
 example : ∀ c, trim (trim c) = trim c ∧ (hasNewline c = false → hasNewline (trim c) = false) :=
   fun c => ⟨trim_idem c, hasNewline_trim c⟩
+
+example : endsWithLineComment (trim " /* a */ // b \n".toList) = endsWithLineComment " /* a */ // b \n".toList := by
+  decide
 
 /-! ## C02 / C07: what was measured is what is written -/
 
